@@ -89,6 +89,23 @@ TEMPLATES = {
     "nested_loops": "def main(n):\n    {B} = []\n    for {A} in range(n):\n        inner = [1, 2]\n        {B}.extend(inner)\n    return {B}\n\n\nprint(main(inp() + 3))\n",
 }
 
+# generated names (overused_constant): the would-be generated name is already taken, in either case, at module level,
+# in a function, as a parameter; a second literal / string then needs a fresh name
+_T1 = "(0, 1, 'north-facing wall')"
+_S1 = "'a fairly long constant text'"
+GENERATED = {
+    "const-upper-taken-at-module": "PYREFACT_OVERUSED_CONSTANT_0 = ('colour', 'palette', 'default')\n\n\ndef main(v):\n    return [%s, %s, %s, v]\n\n\nprint(main(inp()), %s, %s, PYREFACT_OVERUSED_CONSTANT_0)\n" % ((_T1,) * 5),
+    "const-lower-taken-at-module": "pyrefact_overused_constant_0 = ('colour', 'palette', 'default')\n\n\ndef main(v):\n    return [%s, %s, %s, v]\n\n\nprint(main(inp()), %s, %s, pyrefact_overused_constant_0)\n" % ((_T1,) * 5),
+    "const-taken-in-function": "def main(v):\n    pyrefact_overused_constant_0 = v + 1\n    return [%s, %s, %s, %s, %s, pyrefact_overused_constant_0]\n\n\nprint(main(inp()))\n" % ((_T1,) * 5),
+    "const-upper-taken-in-function": "def main(v):\n    PYREFACT_OVERUSED_CONSTANT_0 = v + 1\n    return [%s, %s, %s, %s, %s, PYREFACT_OVERUSED_CONSTANT_0]\n\n\nprint(main(inp()))\n" % ((_T1,) * 5),
+    "const-taken-as-parameter": "def main(pyrefact_overused_constant_0, PYREFACT_OVERUSED_CONSTANT_1=2):\n    return [%s, %s, %s, %s, %s, pyrefact_overused_constant_0, PYREFACT_OVERUSED_CONSTANT_1]\n\n\nprint(main(inp()))\n" % ((_T1,) * 5),
+    "two-constants-two-names": "def main(v):\n    a = [%s, %s, %s, %s, %s]\n    b = [{1: 'one', 2: 'two', 3: 'three'}, {1: 'one', 2: 'two', 3: 'three'}, {1: 'one', 2: 'two', 3: 'three'}, {1: 'one', 2: 'two', 3: 'three'}, {1: 'one', 2: 'two', 3: 'three'}]\n    return a, b, v\n\n\nprint(main(inp()))\n" % ((_T1,) * 5),
+    "string-name-taken-upper": "A_FAIRLY_LONG_CONSTANT_TEXT = 1\n\n\ndef main(v):\n    return [%s, %s, %s, v]\n\n\nprint(main(inp()), %s, %s, A_FAIRLY_LONG_CONSTANT_TEXT)\n" % ((_S1,) * 5),
+    "string-name-taken-lower-local": "def main(v):\n    a_fairly_long_constant_text = v\n    return [%s, %s, %s, %s, %s, a_fairly_long_constant_text]\n\n\nprint(main(inp()))\n" % ((_S1,) * 5),
+    "string-name-is-a-function": "def a_fairly_long_constant_text():\n    return 5\n\n\ndef main(v):\n    return [%s, %s, %s, %s, %s, a_fairly_long_constant_text(), v]\n\n\nprint(main(inp()))\n" % ((_S1,) * 5),
+    "second-run-after-first": "PYREFACT_OVERUSED_CONSTANT_0 = (0, 1, 'north-facing wall')\nPYREFACT_OVERUSED_CONSTANT_1 = 5\n\n\ndef main(v):\n    return [PYREFACT_OVERUSED_CONSTANT_0, PYREFACT_OVERUSED_CONSTANT_1, v]\n\n\nprint(main(inp()), %s, %s, %s, %s, %s)\n" % (("('colour', 'palette', 'default')",) * 5),
+}
+
 DUP_SYM = [
     "def f(x):\n    return x + 7000\n\n\ndef g(x):\n    return x + 7001\n\n\nprint(f(inp()), g(inp()))\n",
     "def f(x):\n    return [x, 7000]\n\n\ndef g(y):\n    return [y, 7001]\n\n\nprint(f(inp()), g(inp()))\n",
@@ -139,6 +156,12 @@ def obligations(tier, seed):
             obs.append(Obligation("%s/%s" % (tr.split(":")[-1][:45], sk.sid), pool.ob_tv,
                                   dict(skeleton=sk.to_json(), transform=tr, budget_s=60.0, max_cex=2, max_paths=300),
                                   hard_timeout=120, sample={"program": sk.text[-300:], "transform": tr}))
+    for name, t in sorted(GENERATED.items()):
+        sk = pool.Skeleton("generated/%s" % name, prelude(6) + t, tape=6, fuel=400)
+        for tr in ("rule:abstractions.overused_constant", "format_code:safe=0", "format_code:safe=1", "twice:format_code:safe=1"):
+            obs.append(Obligation("%s/%s" % (tr.split(":", 1)[-1][:45].replace(":", "-"), sk.sid), pool.ob_tv,
+                                  dict(skeleton=sk.to_json(), transform=tr, budget_s=60.0, max_cex=2), hard_timeout=120,
+                                  sample={"program": t[-300:], "transform": tr}))
     for i, t in enumerate(DUP_SYM):
         sk = pool.Skeleton("dupsym/%d" % i, prelude(6) + t, tape=6)
         for tr in ("rule:fixes.remove_duplicate_functions", "format_code:safe=0"):
